@@ -247,12 +247,16 @@ CallHolds(c, r) ==
                 /\ (r.method = "none" \/ ~IsPre(r.steps[Len(r.steps)].f)) => SameCn(r.out, o)
       [] OTHER -> FALSE
 
-Clauses(op) == CASE op = "direct" -> StepClauses
-                 [] op = "call"   -> StepClauses \cup CallClauses
+(* a record is one direct call of a filter (op = the filter's name) or one do_call (op = "call") *)
+IsDirect(r) == r.op \in FilterNames
+Clauses(op) == CASE op = "call"   -> StepClauses \cup CallClauses
+                 [] op = "cn"     -> StepClauses \ {"ampdel_keeps_amp_del_only"}
+                 [] op = "ampdel" -> StepClauses \ {"cn_kept", "totals_conserved"}
+                 [] op \in {"ci", "sem"} -> StepClauses \ {"cn_kept", "ampdel_keeps_amp_del_only"}
                  [] OTHER         -> {}
 
 Holds(c, r) ==
-    IF r.op = "direct" THEN StepHolds(c, r.f, r.cols, r.a, r.out, r.err)
+    IF IsDirect(r) THEN StepHolds(c, r.f, r.cols, r.a, r.out, r.err)
     ELSE IF c \in CallClauses THEN CallHolds(c, r)
     ELSE \A k \in Idx(r.steps) :
             StepHolds(c, r.steps[k].f, r.steps[k].cols, r.steps[k].a, r.steps[k].out, r.steps[k].err)
@@ -284,9 +288,9 @@ NeedsOK(f, cols, a) ==
 Distinct(fl) == \A n, m \in Idx(fl) : n # m => fl[n] # fl[m]
 Has(fl, f) == \E n \in Idx(fl) : fl[n] = f
 Premise(r) ==
-    /\ r.op \in {"direct", "call"}
+    /\ r.op \in FilterNames \cup {"call"}
     /\ Len(r.a) >= 1 /\ TableOK(r.a)
-    /\ r.op = "direct" => r.f \in FilterNames /\ NeedsOK(r.f, r.cols, r.a)
+    /\ IsDirect(r) => r.f = r.op /\ NeedsOK(r.f, r.cols, r.a)
     /\ r.op = "call" =>
          /\ r.method \in Methods
          /\ \A n \in Idx(r.filters) : r.filters[n] \in FilterNames
@@ -441,7 +445,7 @@ StepDrift(f, cols, a, out, err) ==
        \/ Len(t) # Len(out)
        \/ \E k \in Idx(t) : ~RowMatches(cols, out[k], t[k], Len(a) <= 16)
 Drift(r) ==
-    IF r.op = "direct" THEN StepDrift(r.f, r.cols, r.a, r.out, r.err)
+    IF IsDirect(r) THEN StepDrift(r.f, r.cols, r.a, r.out, r.err)
     ELSE r.err = "" /\ \E k \in Idx(r.steps) :
             StepDrift(r.steps[k].f, r.steps[k].cols, r.steps[k].a, r.steps[k].out, r.steps[k].err)
 
@@ -477,7 +481,7 @@ KnownTriggers == {"AllelicBridge", "FractionalLevel"}
 (* cannot excuse an unrelated failure of the same clause in another)                           *)
 FindingClauses == {"no_merge_across_level", "level_runs", "cn_kept"}
 TriggerHolds(t, r) ==
-    IF r.op = "direct" THEN StepTrigger(t, r.f, r.cols, r.a)
+    IF IsDirect(r) THEN StepTrigger(t, r.f, r.cols, r.a)
     ELSE /\ \E k \in Idx(r.steps) : StepTrigger(t, r.steps[k].f, r.steps[k].cols, r.steps[k].a)
          /\ \A k \in Idx(r.steps) :
                (\E u \in KnownTriggers : StepTrigger(u, r.steps[k].f, r.steps[k].cols, r.steps[k].a))
